@@ -105,3 +105,44 @@ theorem world_update_ref_spec (H : HashFn) (w : W.World) (l : W.Loaded) (path hs
             | tag => simp only [hg] at hok; cases hok
 
 end C10
+
+namespace C10
+
+/-- **`init`**: a successful `init` marks the directory as a repository whose HEAD names `main`, with an empty local configuration,
+    and touches nothing else; in a directory that already is a repository `init` fails and changes nothing -/
+theorem world_init_spec (H : HashFn) (w : W.World) (tz : Int) (ts : List Int) :
+    (∀ o, (W.run H w ⟨.init, tz, ts⟩).2 = .ok o →
+      w.inited = false ∧
+      (W.run H w ⟨.init, tz, ts⟩).1 = { w with inited := true, head := some (Head.render (asc "main")), cfgLocal := some [] }) ∧
+    (w.inited = true → (W.run H w ⟨.init, tz, ts⟩).1 = w ∧ ∀ o, (W.run H w ⟨.init, tz, ts⟩).2 ≠ .ok o) := by
+  constructor
+  · intro o hok
+    unfold W.run at hok ⊢
+    dsimp only at hok ⊢
+    by_cases hi : (!w.inited) = true
+    · rw [if_pos hi] at hok ⊢
+      unfold W.initCmd at hok ⊢
+      split at hok
+      · cases hok
+      · split at hok
+        · cases hok
+        · rename_i h1 h2
+          rw [if_neg h1, if_neg h2]
+          exact ⟨by simpa using hi, rfl⟩
+    · rw [if_neg hi] at hok
+      split at hok
+      · cases hok
+      · split at hok <;> cases hok
+  · intro hi
+    unfold W.run
+    dsimp only
+    have : (!w.inited) = false := by simp [hi]
+    rw [this]
+    simp only [Bool.false_eq_true, if_false]
+    split
+    · exact ⟨rfl, fun o h => by cases h⟩
+    · split
+      · exact ⟨rfl, fun o h => by cases h⟩
+      · exact ⟨rfl, fun o h => by cases h⟩
+
+end C10
